@@ -1,35 +1,37 @@
 package support
 
+import "sync/atomic"
+
 type Supporter struct {
-	progress int  // The progress of the analysis
-	stop     bool // If the analysis is stoped
+	progress int64 // The progress of the analysis (updated by several goroutines: atomic)
+	stop     int32 // 1 if the analysis is stoped (atomic)
 }
 
 // Returns the progress of the analysis
 func NewSupporter() *Supporter {
 	return &Supporter{
 		progress: 0,
-		stop:     false,
+		stop:     0,
 	}
 }
 
 // Returns the progress of the analysis
 func (sup *Supporter) Progress() int {
-	return sup.progress
+	return int(atomic.LoadInt64(&sup.progress))
 }
 
 // Increments the progress of the analysis
 func (sup *Supporter) IncrementProgress() {
-	sup.progress++
+	atomic.AddInt64(&sup.progress, 1)
 }
 
 // Tells the supported to stop the analysis
 // It will just finish the current computations
 func (sup *Supporter) Cancel() {
-	sup.stop = true
+	atomic.StoreInt32(&sup.stop, 1)
 }
 
 // Tells if hasbeen canceled or not
 func (sup *Supporter) Canceled() bool {
-	return sup.stop
+	return atomic.LoadInt32(&sup.stop) != 0
 }
